@@ -3,7 +3,7 @@
 //! process (transport threads, initialize handshake and all).
 
 use serde_json::{json, Value};
-use std::io::{BufRead, BufReader, Read, Write};
+use std::io::{BufRead, BufReader, Write};
 use std::process::{Child, ChildStdin, Command, Stdio};
 use std::sync::mpsc::{channel, Receiver};
 use std::time::Duration;
@@ -119,6 +119,11 @@ impl RealProc {
     /// Sends a request and reads messages until its response (or death / 20 s).
     pub fn request(&mut self, id: i32, method: &str, params: Value) -> Vec<Value> {
         self.send(&json!({"jsonrpc": "2.0", "id": id, "method": method, "params": params}));
+        self.await_response(id)
+    }
+
+    /// Reads messages until the response to request `id` (or death / 20 s).
+    pub fn await_response(&mut self, id: i32) -> Vec<Value> {
         let mut out = Vec::new();
         loop {
             match self.recv(Duration::from_secs(20)) {
